@@ -848,6 +848,7 @@ class SSHProcess(SSHStreamSession, Generic[AnyStr]):
 
         self._readers: Dict[Optional[int], _ReaderProtocol] = {}
         self._send_eof: Dict[Optional[int], bool] = {}
+        self._send_eof_pending = False
 
         self._writers: Dict[Optional[int], _WriterProtocol[AnyStr]] = {}
         self._recv_eof: Dict[Optional[int], bool] = {}
@@ -1159,11 +1160,18 @@ class SSHProcess(SSHStreamSession, Generic[AnyStr]):
             return
 
         if self._send_eof[datatype]:
-            assert self._chan is not None
-            self._chan.write_eof()
+            self._send_eof_pending = True
 
         self._readers[datatype].close()
         self.clear_reader(datatype)
+
+        # EOF applies to the channel as a whole, so only send it once no
+        # other source (such as stderr alongside stdout) is being read
+        if self._send_eof_pending and not self._readers:
+            self._send_eof_pending = False
+
+            assert self._chan is not None
+            self._chan.write_eof()
 
     def feed_close(self, datatype: DataType) -> None:
         """Feed pipe close to the channel"""
